@@ -4,6 +4,7 @@
 package main
 
 import (
+	"encoding/base64"
 	"fmt"
 	"io"
 	"strings"
@@ -393,6 +394,89 @@ func scRotate() func(x *vs.Exec) {
 	}
 }
 
+// siblings: two groups share a host and are told apart by the routing user only. When the last member of one leaves,
+// the other group's endpoint must stay: "the group's endpoint exists exactly as long as it has members".
+func scSiblings(kind string) func(x *vs.Exec) {
+	return func(x *vs.Exec) {
+		defer func() {
+			if r := recover(); r != nil && r != "setup" {
+				panic(r)
+			}
+		}()
+		w := newWorld(x)
+		a, b := login(w, "a"), login(w, "b")
+		reg := func(name, group, user string) *msg.NewProxy {
+			if kind == "http" {
+				return &msg.NewProxy{ProxyName: name, ProxyType: "http", Group: group, GroupKey: "k", CustomDomains: []string{"web.example.com"}, RouteByHTTPUser: user}
+			}
+			return &msg.NewProxy{ProxyName: name, ProxyType: "tcpmux", Multiplexer: "httpconnect", Group: group, GroupKey: "k", CustomDomains: []string{"mux.example.com"}, RouteByHTTPUser: user}
+		}
+		ra := a.NewProxy(reg("g1", "GA", "ua"))
+		rb := b.NewProxy(reg("g2", "GB", "ub"))
+		if ra == nil || ra.Error != "" || rb == nil || rb.Error != "" {
+			vs.Fail("setup registrations refused: %+v %+v", ra, rb)
+			return
+		}
+		w.Quiesce()
+		probe := func(user, src string) (string, string) {
+			if kind == "http" {
+				rc := peek.F(w.Svc, "rc").Interface().(*controller.ResourceController)
+				ri := &vhost.RequestRouteInfo{Host: "web.example.com", URL: "/", RemoteAddr: src, HTTPUser: user}
+				cfg := rc.HTTPReverseProxy.GetRouteConfig("web.example.com", "/", user)
+				if cfg == nil {
+					return "", "no route (not-found page)"
+				}
+				if cfg.ChooseEndpointFn != nil {
+					ri.Endpoint, _ = cfg.ChooseEndpointFn()
+				}
+				c, err := rc.HTTPReverseProxy.CreateConnection(ri, true)
+				if err != nil {
+					return "", "createconn: " + err.Error()
+				}
+				defer c.Close()
+				c.Write([]byte("ping"))
+				eb := make([]byte, 4)
+				done := false
+				go func() { io.ReadFull(c, eb); done = true }()
+				if !vs.BlockOrIdle("echo|idle", func() bool { return done }) {
+					return "", "no echo"
+				}
+			} else {
+				u, e := w.ConnectMux(src, "mux.example.com", "Proxy-Authorization: Basic "+base64.StdEncoding.EncodeToString([]byte(user+":x"))+"\r\n")
+				if e != "" {
+					return "", e
+				}
+				defer u.Close()
+				u.Write([]byte("ping"))
+				eb := make([]byte, 4)
+				if _, idle, err := u.ReadFullOrIdle(eb); idle || err != nil {
+					return "", fmt.Sprintf("no echo (idle=%v err=%v)", idle, err)
+				}
+			}
+			for _, r := range w.Works {
+				if r.Src == src {
+					return r.Peer + "/" + r.Proxy, ""
+				}
+			}
+			return "", "no work record for " + src
+		}
+		if who, e := probe("ub", "10.0.2.1:3001"); e != "" || who != "b/g2" {
+			vs.Fail("setup: request for user ub served by %q (%s)", who, e)
+		}
+		vs.SetInterest(true)
+		a.CloseProxy("g1")
+		w.Quiesce()
+		vs.SetInterest(false)
+		if who, e := probe("ub", "10.0.2.2:3002"); e != "" || who != "b/g2" {
+			vs.Fail("%s groups GA (user ua) and GB (user ub) on one host: after the last member of GA left, a request for user ub is served by %q (%s); GB still has a live member", kind, who, e)
+		}
+		if who, e := probe("ua", "10.0.2.3:3003"); e == "" {
+			vs.Fail("%s: after the last member of GA left a request for user ua is still served, by %q", kind, who)
+		}
+		finish(w)
+	}
+}
+
 func scenarios() {
 	vs.ScenarioFactory = func(name string) *vs.Scenario {
 		parts := strings.Split(name, "/")
@@ -415,6 +499,8 @@ func scenarios() {
 			s.Body = scDeliver(k, 3)
 		case "rotate":
 			s.Body = scRotate()
+		case "siblings":
+			s.Body = scSiblings(parts[0])
 		default:
 			return nil
 		}
@@ -438,7 +524,7 @@ func main() {
 	for _, k := range []string{"tcp", "tcp0", "tcpmux", "http"} {
 		runs = append(runs, run{k + "/params", 1}, run{k + "/race", b}, run{k + "/deliver2", b - 1})
 	}
-	runs = append(runs, run{"http/rotate", 0})
+	runs = append(runs, run{"http/rotate", 0}, run{"http/siblings", 1}, run{"tcpmux/siblings", 1})
 	if !c.Quick() {
 		runs = append(runs, run{"tcp/deliver3", 2}, run{"tcpmux/deliver3", 2})
 	}
